@@ -37,6 +37,8 @@ MUTANTS = [
      "            self._ir = ir\n", "            self._ir = min(ir, 3)\n"),
     ("c01-tp-front-recomputed", "C01", R + "threepoint.py",
      "highest_front = np.argmax(residuals)", "highest_front = np.argmax(residuals[-3:]) + max(len(residuals) - 3, 0)"),
+    ("c01-fkm-module-level-residuals", "C01", R + "fkm.py",
+     "        self._residuals = []\n        self._max_turn = 0.0", "        self._residuals = globals().setdefault('_leak', [])\n        self._max_turn = 0.0"),
     # ---- C02: counting rule
     ("c02-fourpoint-strict", "C02", R + "extension.pyx",
      "if bc <= ab and bc <= cd:", "if bc < ab and bc <= cd:"),
